@@ -46,5 +46,10 @@ m = {
     "not_applicable": na,
     "notes": "Every check: (1) lake build + source audit (no sorry/axiom/native_decide) + #print axioms of each property theorem, (2) correspondence model vs /repo working tree on seeded generated cases, (3) property oracle on the implementation. See DESIGN.md.",
 }
+# known findings: merge the per-property fragments into the single committed file
+kf = []
+for f in sorted((V / "known_findings.d").glob("*.json")):
+    kf.extend(json.loads(f.read_text()))
+(V / "known_findings.json").write_text(json.dumps({"version": 1, "findings": kf}, indent=1) + "\n")
 (V / "MANIFEST.json").write_text(json.dumps(m, indent=1) + "\n")
 print(f"{len(checks)} checks, {len(na)} not_applicable")
